@@ -300,8 +300,50 @@ func sortedDesc(fs []zoekt.FileMatch) bool {
 	return true
 }
 
+func deepCopyFiles(fs []zoekt.FileMatch) []zoekt.FileMatch {
+	out := append([]zoekt.FileMatch(nil), fs...)
+	for i := range out {
+		out[i].LineMatches = append([]zoekt.LineMatch(nil), out[i].LineMatches...)
+		out[i].ChunkMatches = append([]zoekt.ChunkMatch(nil), out[i].ChunkMatches...)
+	}
+	return out
+}
+
+// promotionInPlay names the class of a failure (it decides nothing): did the novel-extension promotion change the
+// ranking of the final result or of one of the intermediate aggregates that collectSender ranked and truncated?
+// The intermediate aggregates are obtained from the real collectSender.
+func promotionInPlay(batches [][]zoekt.FileMatch, opts zoekt.SearchOptions) bool {
+	promoted := func(fs []zoekt.FileMatch) bool {
+		x := deepCopyFiles(fs)
+		index.SortFiles(x)
+		return !sortedDesc(x)
+	}
+	if promoted(flat(batches)) {
+		return true
+	}
+	var prev []zoekt.FileMatch
+	for i, b := range batches {
+		if len(b) == 0 {
+			continue
+		}
+		if promoted(append(deepCopyFiles(prev), b...)) {
+			return true
+		}
+		var rs []*zoekt.SearchResult
+		for _, bb := range batches[:i+1] {
+			rs = append(rs, &zoekt.SearchResult{Files: deepCopyFiles(bb)})
+		}
+		o := opts
+		if res, ok := search.VerifCollect(&o, rs); ok {
+			prev = res.Files
+		}
+	}
+	return false
+}
+
 // compareDisplay returns "" if got is the expected display prefix of unl, else a failure key.
-func compareDisplay(got, unl []zoekt.FileMatch, c e2eCase, texts map[string]string) string {
+// aggBatches (nil for a plain stream) are the shard results collectSender aggregated to produce got.
+func compareDisplay(got, unl []zoekt.FileMatch, c e2eCase, texts map[string]string, aggBatches [][]zoekt.FileMatch) string {
 	want, cutFile, cutChunk, clipped := expectedDisplay(unl, c.D, c.M, c.Chunk, c.Ctx, texts)
 	kind := ""
 	if len(got) != len(want) {
@@ -330,6 +372,9 @@ func compareDisplay(got, unl []zoekt.FileMatch, c e2eCase, texts map[string]stri
 			}
 			if !reflect.DeepEqual(g, w) {
 				kind = "file-differs"
+				if os.Getenv("C22_DEBUG") != "" {
+					fmt.Fprintf(os.Stderr, "file %d differs:\n got  %+v\n want %+v\n", i, g, w)
+				}
 				break
 			}
 		}
@@ -337,8 +382,11 @@ func compareDisplay(got, unl []zoekt.FileMatch, c e2eCase, texts map[string]stri
 	if kind == "" {
 		return ""
 	}
-	if kind != "chunk-context-short-at-eof" && kind != "chunk-cut-lines" && (!sortedDesc(unl) || !sortedDesc(got)) {
-		kind = "novel-extension:" + kind
+	if kind != "chunk-context-short-at-eof" && kind != "chunk-cut-lines" && aggBatches != nil {
+		o := zoekt.SearchOptions{ChunkMatches: c.Chunk, NumContextLines: c.Ctx, MaxDocDisplayCount: c.D, MaxMatchDisplayCount: c.M}
+		if promotionInPlay(aggBatches, o) {
+			kind = "novel-extension:" + kind
+		}
 	}
 	return kind
 }
@@ -431,7 +479,7 @@ func runE2E(w *gen.Writer, c e2eCase, class string) {
 		for _, b := range unlStream.batches {
 			bs = append(bs, mp.files(b))
 		}
-		goV, key := fail(compareDisplay(lim.Files, unl.Files, c, texts))
+		goV, key := fail(compareDisplay(lim.Files, unl.Files, c, texts, unlStream.batches))
 		cs := gen.Case{Go: goV, Key: key, Class: class + "/search", Nontrivial: len(unl.Files) >= 2 && len(lim.Files) < len(unl.Files) || matchTotal(lim.Files) < matchTotal(unl.Files), Detail: det}
 		if !ties {
 			cs.In = fmt.Sprintf("agg %d %d %s %d %s", c.D, c.M, ch, c.Ctx, encBatches(bs))
@@ -469,7 +517,11 @@ func runE2E(w *gen.Writer, c e2eCase, class string) {
 		for _, b := range ls.batches {
 			outs = append(outs, mp.files(b))
 		}
-		goV, key := fail(compareDisplay(flat(ls.batches), flat(us.batches), c, texts))
+		var aggB [][]zoekt.FileMatch
+		if flush > 0 {
+			aggB = unlStream.batches
+		}
+		goV, key := fail(compareDisplay(flat(ls.batches), flat(us.batches), c, texts, aggB))
 		cl := class + "/stream"
 		if flush > 0 {
 			cl = class + "/stream-flush"
